@@ -26,6 +26,19 @@ pub struct Case {
 pub fn sampling_of(rate_exp: Option<u8>, words: &[u64]) -> (Sampling, Option<u64>) {
     match rate_exp {
         None => (Sampling::None, None),
+        // 101..=150: a rate whose inverse is not an integer, 1/(k-100+0.37): the multiplicity is
+        // the floor or the ceiling of the inverse (which of the two depends on the draw; C12
+        // decides that distribution) - the floor is returned here, `weight_candidates` has both
+        Some(k) if k > 100 => {
+            let rate = 1.0f32 / ((k - 100) as f32 + 0.37);
+            (
+                Sampling::Rate {
+                    rate_bits: rate.to_bits(),
+                    words: words.to_vec(),
+                },
+                Some((1.0 / rate as f64).floor() as u64),
+            )
+        }
         Some(k) if k <= 52 => (
             Sampling::Rate {
                 rate_bits: (2f32).powi(-(k as i32)).to_bits(),
@@ -43,8 +56,21 @@ pub fn sampling_of(rate_exp: Option<u8>, words: &[u64]) -> (Sampling, Option<u64
     }
 }
 
+/// the multiplicities a correct formatter may apply for this rate
+pub fn weight_candidates(rate_exp: Option<u8>) -> Vec<Option<u64>> {
+    match rate_exp {
+        Some(k) if k > 100 => {
+            let rate = 1.0f32 / ((k - 100) as f32 + 0.37);
+            let inv = 1.0 / rate as f64;
+            vec![Some(inv.floor() as u64), Some(inv.ceil() as u64)]
+        }
+        other => vec![sampling_of(other, &[]).1],
+    }
+}
+
 pub fn arb_rate_exp() -> impl Strategy<Value = Option<u8>> {
     prop_oneof![
+        2 => (101u8..=150).prop_map(Some),
         5 => Just(None),
         2 => Just(Some(0u8)),
         2 => (1u8..=3).prop_map(Some),
@@ -116,9 +142,35 @@ pub fn check(case: &Case) -> CaseResult {
             String::from_utf8_lossy(&out)
         ),
     };
-    let expected = ref_emf(&log, &case.cfg, mult);
-    if let Err(e) = compare_records(&recs, &expected, true) {
-        let sig = classify_mismatch(&recs, &expected);
+    // "once": no member may occur twice anywhere in a record - not at the root (C08 looks there
+    // too) and not inside `_aws`, a directive or a metric definition, where a reader that takes
+    // the first or the last occurrence would silently pick one
+    for l in crate::json::split_lines(&out).unwrap_or_default() {
+        if let Ok(j) = crate::json::parse(l) {
+            if let Some(d) = j.duplicate_member_deep() {
+                vfail!(
+                    "emf-content:duplicate-member",
+                    "a record carries member {d:?} twice: {}",
+                    String::from_utf8_lossy(&l[..l.len().min(1500)])
+                );
+            }
+        }
+    }
+    let _ = mult;
+    let mut last_err = None;
+    let mut matched = false;
+    for m in weight_candidates(case.rate_exp) {
+        let expected = ref_emf(&log, &case.cfg, m);
+        match compare_records(&recs, &expected, true) {
+            Ok(()) => {
+                matched = true;
+                break;
+            }
+            Err(e) => last_err = Some((e, classify_mismatch(&recs, &expected))),
+        }
+    }
+    if !matched {
+        let (e, sig) = last_err.unwrap();
         vfail!(sig, "{e}\noutput={:?}", String::from_utf8_lossy(&out));
     }
 
@@ -247,6 +299,9 @@ pub fn check(case: &Case) -> CaseResult {
     if mult == Some(u64::MAX) {
         classes.push("saturating-weight");
     }
+    if matches!(case.rate_exp, Some(k) if k > 100) {
+        classes.push("rate-with-fractional-inverse");
+    }
     if feats >= 2 {
         classes.push("nt");
     }
@@ -327,7 +382,7 @@ fn check_missing_timestamp(ctx: &mut Ctx) {
     ctx.push_custom(t.finish(&[]));
 }
 
-pub const RULE: &str = "valid-by-construction entries (unique names per record, declared dimensions written as strings, split/entry-dimension config before the first dimensioned metric, one timestamp; arbitrary Unicode in every name and string; 0-5 observations incl. NaN/inf/zero-occurrence; all units; flags; 0-3 distinct per-metric dimension sets presented in rotated key order) on a fresh formatter or on one that has already formatted 1-2 other entries of the same configuration, valid ones or (35%) ones with an injected validation defect that the formatter rejects (warm formatter) x configurations (5 constructors, 1-3 namespaces, 1-3 default dimension sets, entry dimensions, extra directives, log group, ignored-dimension mode) x sampling weight (none, 2^k for k<=52, saturated). Oracle: parsed output as a multiset of records == independent reference interpretation RefEmf of the recorded call sequence; RecLog cross-checked against to_test_entry. Non-trivial = >=2 of {multi-namespace, >=2 split records, entry dimensions, integer > 2^53, non-finite observation, sampling}";
+pub const RULE: &str = "valid-by-construction entries (unique names per record, declared dimensions written as strings, split/entry-dimension config before the first dimensioned metric, one timestamp; arbitrary Unicode in every name and string; 0-5 observations incl. NaN/inf/zero-occurrence; all units; flags; 0-3 distinct per-metric dimension sets presented in rotated key order) on a fresh formatter or on one that has already formatted 1-2 other entries of the same configuration, valid ones or (35%) ones with an injected validation defect that the formatter rejects (warm formatter) x configurations (5 constructors, 1-3 namespaces, 1-3 default dimension sets, entry dimensions, extra directives, log group, ignored-dimension mode) x sampling weight (none, 2^k for k<=52, saturated, or a rate with a fractional inverse where the floor or the ceiling is accepted). Oracle: parsed output as a multiset of records == independent reference interpretation RefEmf of the recorded call sequence; RecLog cross-checked against to_test_entry. Non-trivial = >=2 of {multi-namespace, >=2 split records, entry dimensions, integer > 2^53, non-finite observation, sampling}";
 
 pub fn run(ctx: &mut Ctx) {
     ctx.assume("RefEmf encodes the documented meaning of an entry (emf.rs docs + in-tree expected outputs); float lexemes are compared after correctly rounded parsing, integers by lexeme");
@@ -351,6 +406,7 @@ pub fn run(ctx: &mut Ctx) {
                 "extra-directives",
                 "log-group",
                 "saturating-weight",
+                "rate-with-fractional-inverse",
                 "warm-formatter",
                 "warm-formatter-rejected-an-entry",
             ]),
